@@ -1,15 +1,19 @@
 package main
 
 import (
+	"context"
+	"encoding/json"
 	"errors"
 	"fmt"
 	goerrors "github.com/ajitpratap0/GoSQLX/pkg/errors"
+	"os"
 	"strings"
 
 	"github.com/ajitpratap0/GoSQLX/pkg/gosqlx"
 	"github.com/ajitpratap0/GoSQLX/pkg/models"
 	"github.com/ajitpratap0/GoSQLX/pkg/sql/parser"
 	"github.com/ajitpratap0/GoSQLX/pkg/sql/token"
+	"github.com/ajitpratap0/GoSQLX/pkg/sql/tokenizer"
 )
 
 func init() { props["C12"] = runC12 }
@@ -24,11 +28,18 @@ func containsStartAfterFirst(conv []token.Token) bool {
 		if i == 0 || t.Type == models.TokenTypeEOF {
 			continue
 		}
-		if parser.VerifIsStatementStart(t) {
+		if isStartKeywordToken(t) {
 			return true
 		}
 	}
 	return false
+}
+
+// isStartKeywordToken: the token is a keyword token (its type is the keyword's own) of a statement-starting word —
+// decided from the token type alone, independently of the parser's test; a string literal, a quoted name or an
+// identifier is never one, whatever it spells
+func isStartKeywordToken(t token.Token) bool {
+	return stmtStartWords[strings.ToUpper(t.Type.String())]
 }
 
 func convOf(sql string) []token.Token {
@@ -57,6 +68,36 @@ func runC12(c *runCtx) {
 		good bool
 		dump string
 	}
+	// tie of the harness's own keyword set to the source: the token types the parser's test lists (regenerated table)
+	if raw, err := os.ReadFile(verifDir + "/gen/structure.json"); err == nil {
+		var st struct {
+			Types []string `json:"recovery_start_types"`
+			Other []string `json:"recovery_start_other"`
+		}
+		if json.Unmarshal(raw, &st) == nil && st.Types != nil {
+			res.CorrCases++
+			got := map[string]bool{}
+			for _, t := range st.Types {
+				got[strings.ToUpper(t)] = true
+			}
+			same := len(got) == len(stmtStartWords)
+			for w := range stmtStartWords {
+				same = same && got[w]
+			}
+			if !same || len(st.Other) != 0 {
+				res.corrFail("statement-start-table", "the statement-starting token types listed in recovery.go (or what else its test reads) differ from the set the harness quantifies with",
+					map[string]any{"source_types": st.Types, "source_other": st.Other}, nil)
+			}
+		}
+	}
+	allWords := parserWords()
+	var startWords []string
+	for _, w := range allWords {
+		if cv := convOf(w); len(cv) >= 1 && parser.VerifIsStatementStart(cv[0]) {
+			startWords = append(startWords, w)
+		}
+	}
+	res.Notes = append(res.Notes, "statement-starting words (from the parser's own test, over the grammar's words): "+strings.Join(startWords, " "))
 	mkSeg := func() (seg, bool) {
 		var base string
 		if c.rng.Chance(50) {
@@ -65,6 +106,32 @@ func runC12(c *runCtx) {
 			base = g.Statement()
 		}
 		base = strings.ReplaceAll(base, ";", "")
+		if c.rng.Chance(12) {
+			// a malformed statement that goes on, after the point where it fails, with words of the grammar written as
+			// string literals and quoted names: they are values and names, not the start of anything
+			w := c.rng.Pick(startWords)
+			if c.rng.Chance(40) {
+				w = c.rng.Pick(allWords)
+			}
+			switch c.rng.Intn(3) {
+			case 0:
+				w = strings.ToLower(w)
+			case 1:
+				w = w[:1] + strings.ToLower(w[1:])
+			}
+			head := c.rng.Pick([]string{"SELECT a FROM WHERE b =", "SELECT FROM t WHERE c =", "INSERT INTO VALUES ( 1 ,", "UPDATE SET a =", "DELETE t WHERE a =", "SELECT a , , b FROM t WHERE c IN (", "CREATE TABLE ( a INT DEFAULT"})
+			tail := c.rng.Pick([]string{"'" + w + "'", "\"" + w + "\"", "'" + w + "' AND d = \"" + w + "\"", "x , '" + w + "' , 2 )", "\"" + w + "\" . c > 1"})
+			bad := head + " " + tail
+			conv := convOf(bad)
+			if conv == nil || len(conv) < 2 || containsStartAfterFirst(conv) {
+				return seg{}, false
+			}
+			if _, err := gosqlx.Parse(bad); err == nil {
+				return seg{}, false
+			}
+			res.stat("segment-with-quoted-grammar-word")
+			return seg{bad, false, ""}, true
+		}
 		if c.rng.Chance(55) {
 			tree, err := gosqlx.Parse(base)
 			if err != nil || len(tree.Statements) != 1 {
@@ -118,6 +185,13 @@ func runC12(c *runCtx) {
 		if conv == nil {
 			res.stat("script-lex-error")
 			continue
+		}
+		for _, t := range conv {
+			if t.Type != models.TokenTypeEOF && parser.VerifIsStatementStart(t) != isStartKeywordToken(t) {
+				res.fail("statement-start-classification", "recovery's test for a statement-starting keyword answers differently from the token's type (a literal, a quoted name or an identifier is no keyword; a keyword token of a starting word is one)",
+					map[string]any{"script": script, "token": t.Literal, "type": t.Type.String()}, map[string]any{"parser_says": parser.VerifIsStatementStart(t)})
+				break
+			}
 		}
 		// segment boundaries in token indices
 		var bounds [][2]int
@@ -308,6 +382,46 @@ func runC12(c *runCtx) {
 		_, errs := parser.NewParser().ParseWithRecovery(conv)
 		if (perr != nil) != (len(errs) > 0) {
 			res.fail("recovery-iff", "recovery reports an error iff strict parsing fails — violated", map[string]any{"script": soup}, fmt.Sprint(perr))
+		}
+	}
+	// well-formed statements written one after the other with and without semicolons between them, and cut anywhere:
+	// recovery reports an error iff strict parsing fails, for each of the strict loops
+	for r := 0; r < c.n(1200, 20000); r++ {
+		k := 2 + c.rng.Intn(3)
+		text := ""
+		for i := 0; i < k; i++ {
+			st := c.rng.Pick(simpleGood)
+			if c.rng.Chance(40) {
+				st = strings.ReplaceAll(g.Statement(), ";", "")
+			}
+			text += st
+			if i < k-1 {
+				text += c.rng.Pick([]string{" ", "\n", " ; ", "\n", " ;\n"})
+			}
+		}
+		if c.rng.Chance(20) {
+			ws := strings.Fields(text)
+			text = strings.Join(ws[:1+c.rng.Intn(len(ws))], " ")
+		}
+		conv := convOf(text)
+		if conv == nil || !hasNonSemicolonToken(conv) {
+			continue
+		}
+		res.count("joined|"+text, true)
+		_, errs := parser.NewParser().ParseWithRecovery(conv)
+		tk, _ := tokenizer.New()
+		mt, _ := tk.Tokenize([]byte(text))
+		strict := map[string]error{}
+		_, strict["Parse"] = parser.NewParser().Parse(conv)
+		_, strict["ParseContext"] = parser.NewParser().ParseContext(context.Background(), conv)
+		if mt != nil {
+			_, strict["ParseFromModelTokensWithPositions"] = parser.NewParser().ParseFromModelTokensWithPositions(mt)
+		}
+		for name, perr := range strict {
+			if (perr != nil) != (len(errs) > 0) {
+				res.fail("recovery-iff:"+name, "statements written one after the other: recovery reports an error iff strict parsing fails — violated", map[string]any{"script": text, "strict_entry": name},
+					map[string]any{"strict_error": fmt.Sprint(perr), "recovery_errors": len(errs)})
+			}
 		}
 	}
 	for _, in := range []string{strings.Repeat("SELECT ( ; ", 3000), strings.Repeat(") ", 20000), strings.Repeat("SELECT FROM WHERE ", 5000), strings.Repeat("x ", 50000)} {
